@@ -652,6 +652,12 @@ func decideC14(c c14Case, runnerLevel bool) Verdict {
 	if !reflect.DeepEqual(fresh, after) {
 		return failf("ParseMarkup(%q) depends on the parser's history %q:\n fresh:  %s\n reused: %s", c.Probe, c.History, showOutcome(fresh), showOutcome(after))
 	}
+	// a copy of the parser value (a LineParser is a plain struct: returning it by value, storing it in a slice that grows)
+	copied := *reused
+	onCopy, p5 := parseWith(&copied, c.Probe)
+	if p5 != nil || !reflect.DeepEqual(fresh, onCopy) {
+		return failf("ParseMarkup(%q) on a copy of a parser value that had parsed %q differs from a fresh parser (panic: %v):\n fresh: %s\n copy:  %s", c.Probe, c.History, p5, showOutcome(fresh), showOutcome(onCopy))
+	}
 	// a second parse of the same line on the same parser (the first result is kept, and must stay what it was - unless
 	// the caller itself changes it, which it does now and then: the second parse must not see that either)
 	afterCopy := copyOutcome(after)
@@ -896,6 +902,11 @@ var c14Long = Register(Prop[c14Case]{ID: "C14", Name: "long-history", Run: runC1
 				c.History = append(c.History, rapid.SampledFrom(pool).Draw(t, "pooled"))
 			case 1:
 				c.History = append(c.History, fmt.Sprintf("[a]line %d[/a] [b n=%d /] tail%s", i, i, bulk))
+				if i%9 == 4 {
+					// a line with hundreds of markers, some of them left open, followed by a line that closes everything
+					many := rapid.SampledFrom([]int{60, 151, 152, 200, 320, 700}).Draw(t, "markers")
+					c.History = append(c.History, strings.Repeat("[k/][o]x", many/2), "Oh, [wave][bounce]hello[/] there!")
+				}
 			default:
 				c.History = append(c.History, fmt.Sprintf("%s #%d", rapid.SampledFrom(pool).Draw(t, "base"), i))
 			}
@@ -909,3 +920,63 @@ var c14Long = Register(Prop[c14Case]{ID: "C14", Name: "long-history", Run: runC1
 })
 
 func TestC14LongHistory(t *testing.T) { Check(t, c14Long) }
+
+// ---------------------------------------------------------------------------------------
+// C13: the implicit character attribute next to markers named "character" that do not become attributes (left open)
+
+type c13CharCase struct {
+	Name   string `json:"name"`
+	Blanks int    `json:"blanks"`
+	Marker string `json:"marker"` // an open marker that is never closed, written somewhere in the line
+	Where  string `json:"where"`  // start, after-prefix, end
+	Rest   string `json:"rest"`
+}
+
+func runC13Char(c c13CharCase) Verdict {
+	prefix := c.Name + ":" + strings.Repeat(" ", c.Blanks)
+	var line string
+	switch c.Where {
+	case "start":
+		line = c.Marker + prefix + c.Rest
+	case "after-prefix":
+		line = prefix + c.Marker + c.Rest
+	default:
+		line = prefix + c.Rest + c.Marker
+	}
+	res, err, panicked := parseFresh(line)
+	if panicked != nil {
+		return failf("ParseMarkup(%q) panicked: %v", line, panicked)
+	}
+	if err != nil {
+		return Verdict{Discard: "the line is refused"}
+	}
+	var found []markup.Attribute
+	for _, a := range res.Attributes {
+		if a.Name == "character" {
+			found = append(found, a)
+		}
+	}
+	wantLen := utf8.RuneCountInString(prefix)
+	if len(found) != 1 || found[0].Position != 0 || found[0].Length != wantLen || found[0].Properties["name"].StringValue != c.Name {
+		return failf("ParseMarkup(%q): the prefix %q must yield one character attribute 0+%d with name %q (the marker %s is never closed and is no attribute); attributes: %+v", line, prefix, wantLen, c.Name, c.Marker, res.Attributes)
+	}
+	if got := res.TextForAttribute(found[0]); got != strings.TrimRight(prefix, " ") && got != prefix {
+		return failf("ParseMarkup(%q): TextForAttribute(character) = %q, want the prefix %q", line, got, prefix)
+	}
+	return Verdict{NonTrivial: true, Classes: []string{"where=" + c.Where}}
+}
+
+var c13Char = Register(Prop[c13CharCase]{
+	ID: "C13", Name: "character-prefix", Run: runC13Char,
+	Gen: func(t *rapid.T) c13CharCase {
+		return c13CharCase{
+			Name:   rapid.SampledFrom([]string{"Bob", "José", "日本", "Mr Smith", "é"}).Draw(t, "name"),
+			Blanks: rapid.IntRange(1, 3).Draw(t, "blanks"),
+			Marker: rapid.SampledFrom([]string{"[character]", "[character name=\"Bob\"]", "[character name=Alice]", "[b]", "[characters]", "[Character]", "[character x=1 name=\"Q\"]"}).Draw(t, "marker"),
+			Where:  rapid.SampledFrom([]string{"start", "after-prefix", "end"}).Draw(t, "where"),
+			Rest:   rapid.SampledFrom([]string{"Hi there", "x", "[i]hi[/i] you", "é 日本"}).Draw(t, "rest"),
+		}
+	},
+})
+
+func TestC13CharacterPrefix(t *testing.T) { Check(t, c13Char) }
